@@ -776,6 +776,7 @@ theorem T.stable {e : Expr} {s : S0} (h : T g inp e s) : Stable fun M => L0.run 
 theorem T.of_step {e : Expr} {s : S0} (h : Stable fun M => L0.step g inp M (L0.run g inp M) e s) :
     T g inp e s := by
   obtain ⟨n, x, hx, hst⟩ := h
+  dsimp only at hst
   refine ⟨n + 1, ?_⟩
   show L0.step g inp n (L0.run g inp n) e s ≠ .oof
   rw [hst n (Nat.le_refl _)]; exact hx
@@ -789,6 +790,7 @@ theorem ruleApply_stable {name : String} {mod : Nat} {body : Expr} {s : S0}
     (h : T g inp body { s with atomic := L0.ruleAtomic name mod s.atomic }) :
     Stable fun M => L0.ruleApply (L0.run g inp M) name mod body s := by
   obtain ⟨n, x, hx, hst⟩ := h.stable
+  dsimp only at hst
   cases x with
   | oof => exact absurd rfl hx
   | ok s1 ps1 =>
@@ -812,28 +814,733 @@ theorem trySkip_stable {ro : Option Rule} {s : S0}
     (h : ∀ r, ro = some r → T g inp r.body { s with atomic := L0.ruleAtomic r.name r.mod s.atomic }) :
     ∃ n t, (∀ x, t = L0.Try0.stop x → x ≠ .oof) ∧ ∀ M, n ≤ M → L0.trySkip (L0.run g inp M) ro s = t := by
   cases ro with
-  | none => exact ⟨0, .no, by intro x hx; cases hx, fun M _ => rfl⟩
+  | none => exact ⟨0, .no, (by intro x hx; cases hx), fun M _ => rfl⟩
   | some r =>
     obtain ⟨n, x, hx, hst⟩ := ruleApply_stable (h r rfl)
+    dsimp only at hst
     cases x with
     | oof => exact absurd rfl hx
     | ok s1 ps1 =>
-      refine ⟨n, .matched s1 ps1, by intro x hx; cases hx, fun M hM => ?_⟩
+      refine ⟨n, .matched s1 ps1, (by intro x hx; cases hx), fun M hM => ?_⟩
       have := hst M hM
       simp only [L0.trySkip] at this ⊢
       rw [this]
     | fail =>
-      refine ⟨n, .no, by intro x hx; cases hx, fun M hM => ?_⟩
+      refine ⟨n, .no, (by intro x hx; cases hx), fun M hM => ?_⟩
       have := hst M hM
       simp only [L0.trySkip] at this ⊢
       rw [this]
     | stuck =>
-      refine ⟨n, .stop .stuck, by intro x hx; cases hx; simp, fun M hM => ?_⟩
+      refine ⟨n, .stop .stuck, (by intro x hx; cases hx; simp), fun M hM => ?_⟩
       have := hst M hM
       simp only [L0.trySkip] at this ⊢
       rw [this]
 
+theorem skipLoop_stable {N : List String} (hP : ∀ M, Prog inp N (L0.run g inp M)) (ws cm : Option Rule)
+    (hws : ∀ r, ws = some r → nullable N r.body = false)
+    (hcm : ∀ r, cm = some r → nullable N r.body = false) :
+    ∀ (d : Nat) (s : S0) (acc : List Pair), inp.size - s.pos ≤ d → s.pos ≤ inp.size →
+      (∀ r, (ws = some r ∨ cm = some r) → ∀ s' : S0, s.pos ≤ s'.pos → s'.pos ≤ inp.size →
+        T g inp r.body { s' with atomic := L0.ruleAtomic r.name r.mod s'.atomic }) →
+      ∃ n x, x ≠ R0.oof ∧ ∀ M, n ≤ M → ∀ k, d + 1 ≤ k →
+        L0.skipLoop (L0.run g inp M) ws cm k s acc = x := by
+  intro d
+  induction d using Nat.strongRecOn with
+  | ind d ih =>
+    intro s acc hd hs hT
+    -- a matched trivia rule moves forward
+    have fwd : ∀ (ro : Option Rule) (hro : ∀ r, ro = some r → nullable N r.body = false) (n1 : Nat)
+        (s1 : S0) (ps1 : List Pair), L0.trySkip (L0.run g inp n1) ro s = .matched s1 ps1 →
+        s.pos < s1.pos ∧ s1.pos ≤ inp.size := by
+      intro ro hro n1 s1 ps1 hm
+      obtain ⟨r, hr, a, b, c⟩ := trySkip_prog (hP n1) hs hm
+      have hnn := hro r hr
+      refine ⟨?_, b⟩
+      rcases Nat.lt_or_ge s.pos s1.pos with h | h
+      · exact h
+      · have : s1.pos = s.pos := by omega
+        rw [c this] at hnn; cases hnn
+    obtain ⟨n1, t1, ht1, hst1⟩ := trySkip_stable (g := g) (inp := inp) (ro := ws) (s := s)
+      (fun r hr => hT r (Or.inl hr) s (Nat.le_refl _) hs)
+    cases t1 with
+    | matched s1 ps1 =>
+      obtain ⟨hlt, hb⟩ := fwd ws hws n1 s1 ps1 (hst1 n1 (Nat.le_refl _))
+      obtain ⟨n2, x, hx, hst2⟩ := ih (d - 1) (by omega) s1 (acc ++ ps1) (by omega) hb
+        (fun r hr s' h1 h2 => hT r hr s' (by omega) h2)
+      refine ⟨max n1 n2, x, hx, fun M hM k hk => ?_⟩
+      obtain ⟨k', rfl⟩ : ∃ k', k = k' + 1 := ⟨k - 1, by omega⟩
+      simp only [L0.skipLoop]
+      rw [hst1 M (by omega)]
+      exact hst2 M (by omega) k' (by omega)
+    | stop x =>
+      refine ⟨n1, x, ht1 x rfl, fun M hM k hk => ?_⟩
+      obtain ⟨k', rfl⟩ : ∃ k', k = k' + 1 := ⟨k - 1, by omega⟩
+      simp only [L0.skipLoop]
+      rw [hst1 M hM]
+    | no =>
+      obtain ⟨n2, t2, ht2, hst2⟩ := trySkip_stable (g := g) (inp := inp) (ro := cm) (s := s)
+        (fun r hr => hT r (Or.inr hr) s (Nat.le_refl _) hs)
+      cases t2 with
+      | matched s1 ps1 =>
+        obtain ⟨hlt, hb⟩ := fwd cm hcm n2 s1 ps1 (hst2 n2 (Nat.le_refl _))
+        obtain ⟨n3, x, hx, hst3⟩ := ih (d - 1) (by omega) s1 (acc ++ ps1) (by omega) hb
+          (fun r hr s' h1 h2 => hT r hr s' (by omega) h2)
+        refine ⟨max n1 (max n2 n3), x, hx, fun M hM k hk => ?_⟩
+        obtain ⟨k', rfl⟩ : ∃ k', k = k' + 1 := ⟨k - 1, by omega⟩
+        simp only [L0.skipLoop]
+        rw [hst1 M (by omega)]
+        simp only []
+        rw [hst2 M (by omega)]
+        exact hst3 M (by omega) k' (by omega)
+      | stop x =>
+        refine ⟨max n1 n2, x, ht2 x rfl, fun M hM k hk => ?_⟩
+        obtain ⟨k', rfl⟩ : ∃ k', k = k' + 1 := ⟨k - 1, by omega⟩
+        simp only [L0.skipLoop]
+        rw [hst1 M (by omega)]
+        simp only []
+        rw [hst2 M (by omega)]
+      | no =>
+        refine ⟨max n1 n2, .ok s acc, by simp, fun M hM k hk => ?_⟩
+        obtain ⟨k', rfl⟩ : ∃ k', k = k' + 1 := ⟨k - 1, by omega⟩
+        simp only [L0.skipLoop]
+        rw [hst1 M (by omega)]
+        simp only []
+        rw [hst2 M (by omega)]
+
 end conv
+
+section main
+variable (g : Grammar) (inp : Input) (N tv : List String) (rk : String → Nat)
+
+/-- every rule in `L` ranks below `b` -/
+def Below (b : Nat) (L : List String) : Prop := ∀ m ∈ L, rk m < b
+
+/-- what `wellFormed` certifies, as propositions -/
+structure WFG : Prop where
+  ncl : NClosed g N
+  wf : ∀ r ∈ g.rules, wfE g N r.body = true
+  trivOk : ∀ n r, (n = "WHITESPACE" ∨ n = "COMMENT") → g.lookup n = some r → nullable N r.body = false
+  rank : ∀ r ∈ g.rules, ∀ m ∈ lc N tv r.body, rk m < rk r.name
+  tvIn : ∀ n r, (n = "SKIP" ∨ n = "WHITESPACE" ∨ n = "COMMENT") → g.lookup n = some r → n ∈ tv
+
+def SkipStable (s : S0) : Prop := Stable fun M => L0.skip g (L0.run g inp M) M s
+
+variable {g inp N tv rk}
+
+theorem skip_stable (W : WFG g N tv rk) (hP : ∀ M, Prog inp N (L0.run g inp M)) {s : S0}
+    (hs : s.pos ≤ inp.size)
+    (hT : ∀ r ∈ g.rules, r.name ∈ tv → ∀ s' : S0, s.pos ≤ s'.pos → s'.pos ≤ inp.size →
+      T g inp r.body s') : SkipStable g inp s := by
+  unfold SkipStable Stable
+  by_cases ha : s.atomic = true
+  · exact ⟨0, .ok s [], by simp, fun M _ => by simp [L0.skip, ha]⟩
+  · cases hf : g.fusedSkip with
+    | some r =>
+      have hl := fusedSkip_lookup g hf
+      have hname := lookup_name g hl
+      obtain ⟨n, x, hx, hst⟩ := ruleApply_stable (name := r.name) (mod := r.mod) (s := s)
+        (hT r (lookup_mem g hl) (by rw [hname]; exact W.tvIn "SKIP" r (Or.inl rfl) hl)
+          { s with atomic := L0.ruleAtomic r.name r.mod s.atomic } (Nat.le_refl _) hs)
+      dsimp only at hst
+      refine ⟨n, x, hx, fun M hM => ?_⟩
+      simp only [L0.skip, ha, Bool.false_eq_true, ↓reduceIte, hf]
+      exact hst M hM
+    | none =>
+      by_cases hn : ((g.lookup "WHITESPACE").isNone && (g.lookup "COMMENT").isNone) = true
+      · exact ⟨0, .ok s [], by simp, fun M _ => by simp [L0.skip, ha, hf, hn]⟩
+      · obtain ⟨n, x, hx, hst⟩ := skipLoop_stable hP (g.lookup "WHITESPACE") (g.lookup "COMMENT")
+          (fun r hr => W.trivOk "WHITESPACE" r (Or.inl rfl) hr)
+          (fun r hr => W.trivOk "COMMENT" r (Or.inr rfl) hr)
+          (inp.size - s.pos) s [] (Nat.le_refl _) hs
+          (fun r hr s' h1 h2 => by
+            rcases hr with hr | hr
+            · exact hT r (lookup_mem g hr) (by rw [lookup_name g hr]; exact W.tvIn _ r (Or.inr (Or.inl rfl)) hr)
+                { s' with atomic := L0.ruleAtomic r.name r.mod s'.atomic } h1 h2
+            · exact hT r (lookup_mem g hr) (by rw [lookup_name g hr]; exact W.tvIn _ r (Or.inr (Or.inr rfl)) hr)
+                { s' with atomic := L0.ruleAtomic r.name r.mod s'.atomic } h1 h2)
+        refine ⟨max n (inp.size - s.pos + 1), x, hx, fun M hM => ?_⟩
+        simp only [L0.skip, ha, Bool.false_eq_true, ↓reduceIte, hf, hn]
+        exact hst M (by omega) M (by omega)
+
+/-- the induction hypotheses of the main theorem, seen from a call that started at position `p0`
+    with rank bound `b` and size bound `c` -/
+structure Ctx (p0 b c : Nat) : Prop where
+  big : ∀ e' (s' : S0), p0 < s'.pos → s'.pos ≤ inp.size → wfE g N e' = true → T g inp e' s'
+  same : ∀ e' (s' : S0), s'.pos = p0 → Below rk b (lc N tv e') → esize e' < c → wfE g N e' = true →
+    T g inp e' s'
+  rule : ∀ r ∈ g.rules, rk r.name < b → ∀ s' : S0, s'.pos = p0 → T g inp r.body s'
+
+theorem skipAt (W : WFG g N tv rk) (hP : ∀ M, Prog inp N (L0.run g inp M)) {p0 b c : Nat}
+    (C : Ctx (g := g) (inp := inp) (N := N) (tv := tv) (rk := rk) p0 b c) {s : S0}
+    (h0 : p0 ≤ s.pos) (hs : s.pos ≤ inp.size) (hb : s.pos = p0 → Below rk b tv) :
+    SkipStable g inp s :=
+  skip_stable W hP hs (fun r hr hn s' h1 h2 => by
+    rcases Nat.lt_or_ge p0 s'.pos with h | h
+    · exact C.big r.body s' h h2 (W.wf r hr)
+    · have e1 : s'.pos = p0 := by omega
+      have e2 : s.pos = p0 := by omega
+      exact C.rule r hr (hb e2 r.name hn) s' e1)
+
+/-- the static condition under which `seqL` may run `es` from the origin position -/
+def SeqBelow (N tv : List String) (rk : String → Nat) (b : Nat) : List Expr → Prop
+  | [] => True
+  | e :: rest => Below rk b (lc N tv e) ∧
+      (nullable N e = true → rest ≠ [] → Below rk b tv ∧ SeqBelow N tv rk b rest)
+
+theorem seqL_stable (W : WFG g N tv rk) (hP : ∀ M, Prog inp N (L0.run g inp M)) {p0 b c : Nat}
+    (C : Ctx (g := g) (inp := inp) (N := N) (tv := tv) (rk := rk) p0 b c) :
+    ∀ (es : List Expr) (s : S0) (acc : List Pair), (∀ e ∈ es, wfE g N e = true ∧ esize e < c) →
+      p0 ≤ s.pos → s.pos ≤ inp.size → (s.pos = p0 → SeqBelow N tv rk b es) →
+      Stable fun M => L0.seqL g (L0.run g inp M) M es s acc := by
+  intro es
+  induction es with
+  | nil => intro s acc _ _ _ _; exact ⟨0, .ok s acc, by simp, fun M _ => rfl⟩
+  | cons e rest ih =>
+    intro s acc hes h0 hs hsb
+    have hwe := hes e (by simp)
+    have hTe : T g inp e s := by
+      rcases Nat.lt_or_ge p0 s.pos with h | h
+      · exact C.big e s h hs hwe.1
+      · have e1 : s.pos = p0 := by omega
+        exact C.same e s e1 (hsb e1).1 hwe.2 hwe.1
+    obtain ⟨n1, x1, hx1, hst1⟩ := hTe.stable
+    dsimp only at hst1
+    cases x1 with
+    | oof => exact absurd rfl hx1
+    | fail =>
+      refine ⟨n1, .fail, by simp, fun M hM => ?_⟩
+      simp only [L0.seqL]; rw [hst1 M hM]
+    | stuck =>
+      refine ⟨n1, .stuck, by simp, fun M hM => ?_⟩
+      simp only [L0.seqL]; rw [hst1 M hM]
+    | ok s1 ps1 =>
+      have p1 := hP n1 e s s1 ps1 hs (hst1 n1 (Nat.le_refl _))
+      by_cases hre : rest.isEmpty = true
+      · refine ⟨n1, .ok s1 (acc ++ ps1), by simp, fun M hM => ?_⟩
+        simp only [L0.seqL]; rw [hst1 M hM]; simp only [hre, ↓reduceIte]
+      · have hne : rest ≠ [] := by intro h; rw [h] at hre; simp at hre
+        have hrest : s1.pos = p0 → Below rk b tv ∧ SeqBelow N tv rk b rest := by
+          intro e1
+          have e0 : s.pos = p0 := by omega
+          exact (hsb e0).2 (p1.2.2 (by omega)) hne
+        have hsk : SkipStable g inp s1 :=
+          skipAt W hP C (by omega) p1.2.1 (fun e1 => (hrest e1).1)
+        obtain ⟨n2, x2, hx2, hst2⟩ := hsk
+        dsimp only at hst2
+        cases x2 with
+        | oof => exact absurd rfl hx2
+        | stuck =>
+          refine ⟨max n1 n2, .stuck, by simp, fun M hM => ?_⟩
+          simp only [L0.seqL]; rw [hst1 M (by omega)]
+          simp only [hre, Bool.false_eq_true, ↓reduceIte]
+          rw [hst2 M (by omega)]
+        | ok s2 tps =>
+          have p2 := skip_prog (hP n2) p1.2.1 (hst2 n2 (Nat.le_refl _))
+          obtain ⟨n3, x3, hx3, hst3⟩ := ih s2 (acc ++ ps1 ++ tps)
+            (fun x hx => hes x (List.mem_cons_of_mem _ hx)) (by omega) p2.2
+            (fun e2 => (hrest (by omega)).2)
+          dsimp only at hst3
+          refine ⟨max n1 (max n2 n3), x3, hx3, fun M hM => ?_⟩
+          simp only [L0.seqL]; rw [hst1 M (by omega)]
+          simp only [hre, Bool.false_eq_true, ↓reduceIte]
+          rw [hst2 M (by omega)]
+          exact hst3 M (by omega)
+        | fail =>
+          obtain ⟨n3, x3, hx3, hst3⟩ := ih s1 (acc ++ ps1)
+            (fun x hx => hes x (List.mem_cons_of_mem _ hx)) (by omega) p1.2.1
+            (fun e2 => (hrest e2).2)
+          dsimp only at hst3
+          refine ⟨max n1 (max n2 n3), x3, hx3, fun M hM => ?_⟩
+          simp only [L0.seqL]; rw [hst1 M (by omega)]
+          simp only [hre, Bool.false_eq_true, ↓reduceIte]
+          rw [hst2 M (by omega)]
+          exact hst3 M (by omega)
+
+theorem choiceL_stable : ∀ (es : List Expr) (s : S0), (∀ e ∈ es, T g inp e s) →
+    Stable fun M => L0.choiceL (L0.run g inp M) es s := by
+  intro es
+  induction es with
+  | nil => intro s _; exact ⟨0, .fail, by simp, fun M _ => rfl⟩
+  | cons e rest ih =>
+    intro s hT
+    obtain ⟨n1, x1, hx1, hst1⟩ := (hT e (by simp)).stable
+    dsimp only at hst1
+    cases x1 with
+    | oof => exact absurd rfl hx1
+    | fail =>
+      obtain ⟨n2, x2, hx2, hst2⟩ := ih s (fun x hx => hT x (List.mem_cons_of_mem _ hx))
+      dsimp only at hst2
+      refine ⟨max n1 n2, x2, hx2, fun M hM => ?_⟩
+      simp only [L0.choiceL]; rw [hst1 M (by omega)]
+      exact hst2 M (by omega)
+    | stuck =>
+      refine ⟨n1, .stuck, by simp, fun M hM => ?_⟩
+      simp only [L0.choiceL]; rw [hst1 M hM]
+    | ok s1 ps1 =>
+      refine ⟨n1, .ok s1 ps1, by simp, fun M hM => ?_⟩
+      simp only [L0.choiceL]; rw [hst1 M hM]
+
+theorem repLoop_stable (hP : ∀ M, Prog inp N (L0.run g inp M)) (e : Expr)
+    (hne : nullable N e = false) :
+    ∀ (d : Nat) (s : S0) (first : Bool) (acc : List Pair), inp.size - s.pos ≤ d → s.pos ≤ inp.size →
+      (∀ s' : S0, s.pos ≤ s'.pos → s'.pos ≤ inp.size → T g inp e s') →
+      (∀ s' : S0, (first = true → s.pos < s'.pos) → s.pos ≤ s'.pos → s'.pos ≤ inp.size →
+        SkipStable g inp s') →
+      ∃ n x, x ≠ R0.oof ∧ ∀ M, n ≤ M → ∀ k, d + 1 ≤ k →
+        L0.repLoop g (L0.run g inp M) e k M first s acc = x := by
+  intro d
+  induction d using Nat.strongRecOn with
+  | ind d ih =>
+    intro s first acc hd hs hE hSk
+    -- the optional trivia
+    have hA : ∃ n a, a ≠ R0.oof ∧ (∀ M, n ≤ M →
+        (if first = true then R0.ok s [] else L0.skip g (L0.run g inp M) M s) = a) ∧
+        ∀ s1 tps, a = .ok s1 tps → s.pos ≤ s1.pos ∧ s1.pos ≤ inp.size := by
+      by_cases hf : first = true
+      · refine ⟨0, .ok s [], by simp, fun M _ => by simp [hf], ?_⟩
+        intro s1 tps h; simp only [R0.ok.injEq] at h; obtain ⟨rfl, _⟩ := h; omega
+      · obtain ⟨n, a, ha, hst⟩ := hSk s (fun h => absurd h hf) (Nat.le_refl _) hs
+        dsimp only at hst
+        refine ⟨n, a, ha, fun M hM => by simp only [hf, Bool.false_eq_true, ↓reduceIte]; exact hst M hM, ?_⟩
+        intro s1 tps h
+        have := hst n (Nat.le_refl _)
+        rw [h] at this
+        exact skip_prog (hP n) hs this
+    obtain ⟨n0, a, ha, hsta, hbd⟩ := hA
+    cases a with
+    | oof => exact absurd rfl ha
+    | fail =>
+      refine ⟨n0, .ok s acc, by simp, fun M hM k hk => ?_⟩
+      obtain ⟨k', rfl⟩ : ∃ k', k = k' + 1 := ⟨k - 1, by omega⟩
+      simp only [L0.repLoop]; rw [hsta M hM]
+    | stuck =>
+      refine ⟨n0, .stuck, by simp, fun M hM k hk => ?_⟩
+      obtain ⟨k', rfl⟩ : ∃ k', k = k' + 1 := ⟨k - 1, by omega⟩
+      simp only [L0.repLoop]; rw [hsta M hM]
+    | ok s1 tps =>
+      have b1 := hbd s1 tps rfl
+      obtain ⟨n1, x1, hx1, hst1⟩ := (hE s1 b1.1 b1.2).stable
+      dsimp only at hst1
+      cases x1 with
+      | oof => exact absurd rfl hx1
+      | fail =>
+        refine ⟨max n0 n1, .ok s acc, by simp, fun M hM k hk => ?_⟩
+        obtain ⟨k', rfl⟩ : ∃ k', k = k' + 1 := ⟨k - 1, by omega⟩
+        simp only [L0.repLoop]; rw [hsta M (by omega)]
+        simp only []; rw [hst1 M (by omega)]
+      | stuck =>
+        refine ⟨max n0 n1, .stuck, by simp, fun M hM k hk => ?_⟩
+        obtain ⟨k', rfl⟩ : ∃ k', k = k' + 1 := ⟨k - 1, by omega⟩
+        simp only [L0.repLoop]; rw [hsta M (by omega)]
+        simp only []; rw [hst1 M (by omega)]
+      | ok s2 ps2 =>
+        have p2 := hP n1 e s1 s2 ps2 b1.2 (hst1 n1 (Nat.le_refl _))
+        have hlt : s1.pos < s2.pos := by
+          rcases Nat.lt_or_ge s1.pos s2.pos with h | h
+          · exact h
+          · have : s2.pos = s1.pos := by omega
+            rw [p2.2.2 this] at hne; cases hne
+        obtain ⟨n2, x2, hx2, hst2⟩ := ih (d - 1) (by omega) s2 false (acc ++ tps ++ ps2) (by omega) p2.2.1
+          (fun s' h1 h2 => hE s' (by omega) h2)
+          (fun s' _ h1 h2 => hSk s' (fun _ => by omega) (by omega) h2)
+        refine ⟨max n0 (max n1 n2), x2, hx2, fun M hM k hk => ?_⟩
+        obtain ⟨k', rfl⟩ : ∃ k', k = k' + 1 := ⟨k - 1, by omega⟩
+        simp only [L0.repLoop]; rw [hsta M (by omega)]
+        simp only []; rw [hst1 M (by omega)]
+        exact hst2 M (by omega) k' (by omega)
+
+/-! #### static facts about `lc`, `wfE`, `esize` on the unrolled forms -/
+
+theorem rk_lt_listMax (L : List String) : ∀ m ∈ L, rk m < listMax (L.map rk) + 1 := by
+  induction L with
+  | nil => intro m hm; cases hm
+  | cons x xs ih =>
+    intro m hm
+    simp only [List.map_cons, listMax]
+    rcases List.mem_cons.1 hm with rfl | h
+    · omega
+    · have := ih m h; omega
+
+theorem Below.sub {b : Nat} {L L' : List String} (h : Below rk b L) (hs : ∀ m ∈ L', m ∈ L) :
+    Below rk b L' := fun m hm => h m (hs m hm)
+
+theorem wfEL_iff (es : List Expr) : wfEL g N es = true ↔ ∀ e ∈ es, wfE g N e = true := by
+  induction es with
+  | nil => simp [wfEL]
+  | cons e es ih => simp [wfEL, ih]
+
+theorem seqBelow_of_lcSeq {b : Nat} : ∀ es : List Expr, Below rk b (lcSeq N tv es) →
+    SeqBelow N tv rk b es := by
+  intro es
+  induction es with
+  | nil => intro _; trivial
+  | cons e rest ih =>
+    intro h
+    simp only [lcSeq] at h
+    refine ⟨h.sub (fun m hm => List.mem_append_left _ hm), fun hn hne => ?_⟩
+    have hre : rest.isEmpty = false := by
+      cases rest with
+      | nil => exact absurd rfl hne
+      | cons _ _ => rfl
+    simp only [hn, hre, Bool.not_false, Bool.and_self, ↓reduceIte] at h
+    exact ⟨h.sub (fun m hm => by simp [hm]), ih (h.sub (fun m hm => by simp [hm]))⟩
+
+theorem seqBelow_replicate_append {b : Nat} {e : Expr} (tl : List Expr) (h1 : Below rk b (lc N tv e))
+    (h2 : nullable N e = true → Below rk b tv) :
+    ∀ n : Nat, (nullable N e = true ∨ n = 0 → SeqBelow N tv rk b tl) →
+      SeqBelow N tv rk b (List.replicate n e ++ tl) := by
+  intro n
+  induction n with
+  | zero => intro h3; simpa using h3 (Or.inr rfl)
+  | succ n ih =>
+    intro h3
+    simp only [List.replicate_succ, List.cons_append]
+    exact ⟨h1, fun hn _ => ⟨h2 hn, ih (fun _ => h3 (Or.inl hn))⟩⟩
+
+theorem seqBelow_replicate {b : Nat} {e : Expr} (h1 : Below rk b (lc N tv e))
+    (h2 : nullable N e = true → Below rk b tv) (n : Nat) :
+    SeqBelow N tv rk b (List.replicate n e) := by
+  have := seqBelow_replicate_append (rk := rk) [] h1 h2 n (fun _ => trivial)
+  simpa using this
+
+theorem lc_mem_lcAll {x : Expr} {es : List Expr} {m : String} (hx : x ∈ es) (hm : m ∈ lc N tv x) :
+    m ∈ lcAll N tv es := by
+  induction es with
+  | nil => cases hx
+  | cons y ys ih =>
+    simp only [lcAll, List.mem_append]
+    rcases List.mem_cons.1 hx with rfl | h
+    · exact Or.inl hm
+    · exact Or.inr (ih h)
+
+theorem step_terminal {e : Expr} {s : S0} {x : R0} (hx : x ≠ .oof)
+    (h : ∀ M (rec : Sem0), L0.step g inp M rec e s = x) : T g inp e s :=
+  T.of_step ⟨0, x, hx, fun M _ => h M _⟩
+
+/-! #### the main induction -/
+
+theorem conv_all (W : WFG g N tv rk) (hP : ∀ M, Prog inp N (L0.run g inp M)) :
+    ∀ (a b c : Nat) (e : Expr) (s : S0), wfE g N e = true → s.pos ≤ inp.size →
+      inp.size - s.pos ≤ a → Below rk b (lc N tv e) → esize e ≤ c → T g inp e s := by
+  intro a
+  induction a using Nat.strongRecOn with
+  | ind a iha =>
+  intro b
+  induction b using Nat.strongRecOn with
+  | ind b ihb =>
+  intro c
+  induction c using Nat.strongRecOn with
+  | ind c ihc =>
+  intro e s hw hs ha hb hc
+  have C : Ctx (g := g) (inp := inp) (N := N) (tv := tv) (rk := rk) s.pos b (esize e) :=
+    { big := fun e' s' h1 h2 hw' =>
+        iha (inp.size - s'.pos) (by omega) (listMax ((lc N tv e').map rk) + 1) (esize e') e' s' hw' h2
+          (Nat.le_refl _) (rk_lt_listMax _) (Nat.le_refl _)
+      same := fun e' s' h1 hb' hc' hw' =>
+        ihc (esize e') (by omega) e' s' hw' (by omega) (by omega) hb' (Nat.le_refl _)
+      rule := fun r hr hrk s' h1 =>
+        ihb (rk r.name) hrk (esize r.body) r.body s' (W.wf r hr) (by omega) (by omega) (W.rank r hr)
+          (Nat.le_refl _) }
+  -- a sub-expression run from the same state
+  have sub : ∀ e', wfE g N e' = true → (∀ m ∈ lc N tv e', m ∈ lc N tv e) → esize e' < esize e →
+      T g inp e' s := fun e' hw' hl hsz => C.same e' s rfl (hb.sub hl) hsz hw'
+  cases e with
+  | str x =>
+    by_cases hm : startsWithAt inp x s.pos = true
+    · exact step_terminal (x := .ok (L0.adv s x.length) []) (by simp) (fun M rec => by simp [L0.step, hm])
+    · exact step_terminal (x := .fail) (by simp) (fun M rec => by simp [L0.step, hm])
+  | ci x =>
+    by_cases hm : startsWithAtCI inp x s.pos = true
+    · exact step_terminal (x := .ok (L0.adv s x.length) []) (by simp) (fun M rec => by simp [L0.step, hm])
+    · exact step_terminal (x := .fail) (by simp) (fun M rec => by simp [L0.step, hm])
+  | range lo hi =>
+    refine step_terminal (x := L0.step g inp 0 (fun _ _ => .oof) (.range lo hi) s) ?_ (fun M rec => rfl)
+    simp only [L0.step]
+    cases inp[s.pos]? with
+    | none => simp
+    | some ch => by_cases hm : (decide (lo ≤ ch) && decide (ch ≤ hi)) = true <;> simp [hm]
+  | ident name tag =>
+    simp only [wfE] at hw
+    cases hl : g.lookup name with
+    | none => rw [hl] at hw; cases hw
+    | some r =>
+      have hname := lookup_name g hl
+      have hrk : rk r.name < b := by rw [hname]; exact hb name (by simp [lc])
+      obtain ⟨n, x, hx, hst⟩ := ruleApply_stable (name := r.name) (mod := r.mod) (s := s)
+        (C.rule r (lookup_mem g hl) hrk { s with atomic := L0.ruleAtomic r.name r.mod s.atomic } rfl)
+      dsimp only at hst
+      refine T.of_step ⟨n, x, hx, fun M hM => ?_⟩
+      simp only [L0.step, L0.callRule, hl]
+      exact hst M hM
+  | rule name mod sm body =>
+    simp only [wfE] at hw
+    have hT : T g inp body { s with atomic := L0.ruleAtomic name mod s.atomic } :=
+      C.same body _ rfl (hb.sub (fun m hm => by simpa [lc] using hm)) (by simp [esize]) hw
+    obtain ⟨n, x, hx, hst⟩ := ruleApply_stable (name := name) (mod := mod) hT
+    dsimp only at hst
+    exact T.of_step ⟨n, x, hx, fun M hM => by simp only [L0.step]; exact hst M hM⟩
+  | seq es =>
+    simp only [wfE] at hw
+    have hwes := (wfEL_iff es).1 hw
+    obtain ⟨n, x, hx, hst⟩ := seqL_stable W hP C es s []
+      (fun x hx => ⟨hwes x hx, by have := esize_mem hx; simp only [esize]; omega⟩)
+      (Nat.le_refl _) hs (fun _ => seqBelow_of_lcSeq es (by simpa [lc] using hb))
+    dsimp only at hst
+    exact T.of_step ⟨n, x, hx, fun M hM => by simp only [L0.step]; exact hst M hM⟩
+  | choice es =>
+    simp only [wfE] at hw
+    have hwes := (wfEL_iff es).1 hw
+    obtain ⟨n, x, hx, hst⟩ := choiceL_stable (g := g) (inp := inp) es s (fun x hx =>
+      sub x (hwes x hx) (fun m hm => by simpa [lc] using lc_mem_lcAll hx hm)
+        (by have := esize_mem hx; simp only [esize]; omega))
+    dsimp only at hst
+    exact T.of_step ⟨n, x, hx, fun M hM => by simp only [L0.step]; exact hst M hM⟩
+  | opt e =>
+    simp only [wfE] at hw
+    obtain ⟨n, x, hx, hst⟩ := (sub e hw (fun m hm => by simpa [lc] using hm) (by simp [esize])).stable
+    dsimp only at hst
+    cases x with
+    | oof => exact absurd rfl hx
+    | fail => exact T.of_step ⟨n, .ok s [], by simp, fun M hM => by simp only [L0.step]; rw [hst M hM]⟩
+    | stuck => exact T.of_step ⟨n, .stuck, by simp, fun M hM => by simp only [L0.step]; rw [hst M hM]⟩
+    | ok s1 ps1 => exact T.of_step ⟨n, .ok s1 ps1, by simp, fun M hM => by simp only [L0.step]; rw [hst M hM]⟩
+  | rep e =>
+    simp only [wfE, Bool.and_eq_true, Bool.not_eq_true'] at hw
+    obtain ⟨n, x, hx, hst⟩ := repLoop_stable (g := g) hP e hw.2 (inp.size - s.pos) s true []
+      (Nat.le_refl _) hs
+      (fun s' h1 h2 => by
+        rcases Nat.lt_or_ge s.pos s'.pos with h | h
+        · exact C.big e s' h h2 hw.1
+        · exact C.same e s' (by omega) (hb.sub (fun m hm => by simpa [lc] using hm)) (by simp [esize]) hw.1)
+      (fun s' hf h1 h2 => skipAt W hP C h1 h2 (fun e1 => by have := hf rfl; omega))
+    refine T.of_step ⟨max n (inp.size - s.pos + 1), x, hx, fun M hM => ?_⟩
+    simp only [L0.step]
+    exact hst M (by omega) M (by omega)
+  | rep1 e =>
+    simp only [wfE, Bool.and_eq_true, Bool.not_eq_true'] at hw
+    obtain ⟨n, x, hx, hst⟩ := seqL_stable W hP C [e, .rep e] s []
+      (by
+        intro x hx
+        simp only [List.mem_cons, List.not_mem_nil, or_false] at hx
+        rcases hx with rfl | rfl
+        · exact ⟨hw.1, by simp [esize]⟩
+        · exact ⟨by simp [wfE, hw.1, hw.2], by simp [esize]⟩)
+      (Nat.le_refl _) hs
+      (fun _ => ⟨hb.sub (fun m hm => by simp [lc, hm]), fun hn => by rw [hw.2] at hn; cases hn⟩)
+    dsimp only at hst
+    exact T.of_step ⟨n, x, hx, fun M hM => by simp only [L0.step]; exact hst M hM⟩
+  | repExact e n =>
+    simp only [wfE] at hw
+    have hbe : Below rk b (lc N tv e) := hb.sub (fun m hm => by simp [lc, hm])
+    have hbt : nullable N e = true → Below rk b tv := fun hn =>
+      hb.sub (fun m hm => by simp [lc, hn, hm])
+    obtain ⟨n', x, hx, hst⟩ := seqL_stable W hP C (List.replicate n e) s []
+      (by intro x hx; rw [(List.mem_replicate.1 hx).2]; exact ⟨hw, by simp [esize]⟩)
+      (Nat.le_refl _) hs (fun _ => seqBelow_replicate hbe hbt n)
+    dsimp only at hst
+    exact T.of_step ⟨n', x, hx, fun M hM => by simp only [L0.step]; exact hst M hM⟩
+  | repMin e n =>
+    simp only [wfE, Bool.and_eq_true, Bool.not_eq_true'] at hw
+    have hbe : Below rk b (lc N tv e) := hb.sub (fun m hm => by simp [lc, hm])
+    obtain ⟨n', x, hx, hst⟩ := seqL_stable W hP C (List.replicate n e ++ [.rep e]) s []
+      (by
+        intro x hx
+        rcases List.mem_append.1 hx with hx | hx
+        · rw [(List.mem_replicate.1 hx).2]; exact ⟨hw.1, by simp [esize]⟩
+        · simp only [List.mem_singleton] at hx; rw [hx]
+          exact ⟨by simp [wfE, hw.1, hw.2], by simp [esize]⟩)
+      (Nat.le_refl _) hs
+      (fun _ => seqBelow_replicate_append [.rep e] hbe (fun hn => by rw [hw.2] at hn; cases hn) n
+        (fun _ => ⟨by simpa [lc] using hbe, fun _ hne => absurd rfl hne⟩))
+    dsimp only at hst
+    exact T.of_step ⟨n', x, hx, fun M hM => by simp only [L0.step]; exact hst M hM⟩
+  | repMax e n =>
+    simp only [wfE] at hw
+    have hbe : Below rk b (lc N tv (.opt e)) := hb.sub (fun m hm => by simp only [lc] at hm ⊢; simp [hm])
+    have hbt : Below rk b tv := hb.sub (fun m hm => by simp [lc, hm])
+    obtain ⟨n', x, hx, hst⟩ := seqL_stable W hP C (List.replicate n (.opt e)) s []
+      (by intro x hx; rw [(List.mem_replicate.1 hx).2]; exact ⟨by simpa [wfE] using hw, by simp [esize]⟩)
+      (Nat.le_refl _) hs (fun _ => seqBelow_replicate hbe (fun _ => hbt) n)
+    dsimp only at hst
+    exact T.of_step ⟨n', x, hx, fun M hM => by simp only [L0.step]; exact hst M hM⟩
+  | repMinMax e m n =>
+    simp only [wfE] at hw
+    have hbe : Below rk b (lc N tv e) := hb.sub (fun m hm => by simp [lc, hm])
+    have hbo : Below rk b (lc N tv (.opt e)) := by simpa [lc] using hbe
+    have hbt : nullable N e = true ∨ m = 0 → Below rk b tv := fun hn =>
+      hb.sub (fun x hx => by
+        rcases hn with hn | hn
+        · simp [lc, hn, hx]
+        · simp [lc, hn, hx])
+    obtain ⟨n', x, hx, hst⟩ := seqL_stable W hP C
+      (List.replicate m e ++ List.replicate (n - m) (.opt e)) s []
+      (by
+        intro x hx
+        rcases List.mem_append.1 hx with hx | hx
+        · rw [(List.mem_replicate.1 hx).2]; exact ⟨hw, by simp [esize]⟩
+        · rw [(List.mem_replicate.1 hx).2]; exact ⟨by simpa [wfE] using hw, by simp [esize]⟩)
+      (Nat.le_refl _) hs
+      (fun _ => seqBelow_replicate_append _ hbe (fun hn => hbt (Or.inl hn)) m
+        (fun hn => seqBelow_replicate hbo (fun _ => hbt hn) (n - m)))
+    dsimp only at hst
+    exact T.of_step ⟨n', x, hx, fun M hM => by simp only [L0.step]; exact hst M hM⟩
+  | andP e =>
+    simp only [wfE] at hw
+    obtain ⟨n, x, hx, hst⟩ := (sub e hw (fun m hm => by simpa [lc] using hm) (by simp [esize])).stable
+    dsimp only at hst
+    cases x with
+    | oof => exact absurd rfl hx
+    | fail => exact T.of_step ⟨n, .fail, by simp, fun M hM => by simp only [L0.step]; rw [hst M hM]⟩
+    | stuck => exact T.of_step ⟨n, .stuck, by simp, fun M hM => by simp only [L0.step]; rw [hst M hM]⟩
+    | ok s1 ps1 => exact T.of_step ⟨n, .ok s [], by simp, fun M hM => by simp only [L0.step]; rw [hst M hM]⟩
+  | notP e =>
+    simp only [wfE] at hw
+    obtain ⟨n, x, hx, hst⟩ := (sub e hw (fun m hm => by simpa [lc] using hm) (by simp [esize])).stable
+    dsimp only at hst
+    cases x with
+    | oof => exact absurd rfl hx
+    | fail => exact T.of_step ⟨n, .ok s [], by simp, fun M hM => by simp only [L0.step]; rw [hst M hM]⟩
+    | stuck => exact T.of_step ⟨n, .stuck, by simp, fun M hM => by simp only [L0.step]; rw [hst M hM]⟩
+    | ok s1 ps1 => exact T.of_step ⟨n, .fail, by simp, fun M hM => by simp only [L0.step]; rw [hst M hM]⟩
+  | group e tag =>
+    simp only [wfE] at hw
+    obtain ⟨n, x, hx, hst⟩ := (sub e hw (fun m hm => by simpa [lc] using hm) (by simp [esize])).stable
+    dsimp only at hst
+    exact T.of_step ⟨n, x, hx, fun M hM => by simp only [L0.step]; exact hst M hM⟩
+  | push e =>
+    simp only [wfE] at hw
+    obtain ⟨n, x, hx, hst⟩ := (sub e hw (fun m hm => by simpa [lc] using hm) (by simp [esize])).stable
+    dsimp only at hst
+    cases x with
+    | oof => exact absurd rfl hx
+    | fail => exact T.of_step ⟨n, .fail, by simp, fun M hM => by simp only [L0.step]; rw [hst M hM]⟩
+    | stuck => exact T.of_step ⟨n, .stuck, by simp, fun M hM => by simp only [L0.step]; rw [hst M hM]⟩
+    | ok s1 ps1 =>
+      exact T.of_step ⟨n, .ok { s1 with stk := slice inp s.pos s1.pos :: s1.stk } ps1, by simp,
+        fun M hM => by simp only [L0.step]; rw [hst M hM]⟩
+  | pushLit x => exact step_terminal (x := .ok { s with stk := x :: s.stk } []) (by simp) (fun M rec => rfl)
+  | peek =>
+    refine step_terminal (x := L0.step g inp 0 (fun _ _ => .oof) .peek s) ?_ (fun M rec => rfl)
+    simp only [L0.step]
+    cases s.stk with
+    | nil => simp
+    | cons t r => by_cases hm : startsWithAt inp t s.pos = true <;> simp [hm]
+  | pop =>
+    refine step_terminal (x := L0.step g inp 0 (fun _ _ => .oof) .pop s) ?_ (fun M rec => rfl)
+    simp only [L0.step]
+    cases s.stk with
+    | nil => simp
+    | cons t r => by_cases hm : startsWithAt inp t s.pos = true <;> simp [hm]
+  | drop =>
+    refine step_terminal (x := L0.step g inp 0 (fun _ _ => .oof) .drop s) ?_ (fun M rec => rfl)
+    simp only [L0.step]
+    cases s.stk with
+    | nil => simp
+    | cons t r => simp
+  | peekAll =>
+    refine step_terminal (x := L0.step g inp 0 (fun _ _ => .oof) .peekAll s) ?_ (fun M rec => rfl)
+    simp only [L0.step]
+    cases L0.matchLits inp s.stk s with
+    | none => simp
+    | some q => simp
+  | popAll =>
+    refine step_terminal (x := L0.step g inp 0 (fun _ _ => .oof) .popAll s) ?_ (fun M rec => rfl)
+    simp only [L0.step]
+    cases L0.matchLits inp s.stk s with
+    | none => simp
+    | some q => simp
+  | peekSlice lo hi =>
+    refine step_terminal (x := L0.step g inp 0 (fun _ _ => .oof) (.peekSlice lo hi) s) ?_ (fun M rec => rfl)
+    simp only [L0.step]
+    cases L0.matchLits inp (pySlice s.stk.reverse lo hi) s with
+    | none => simp
+    | some q => simp
+  | anyB =>
+    refine step_terminal (x := L0.step g inp 0 (fun _ _ => .oof) .anyB s) ?_ (fun M rec => rfl)
+    simp only [L0.step]
+    by_cases hm : s.pos < inp.size <;> simp [hm]
+  | soiB =>
+    refine step_terminal (x := L0.step g inp 0 (fun _ _ => .oof) .soiB s) ?_ (fun M rec => rfl)
+    simp only [L0.step]
+    by_cases hm : (s.pos == 0) = true <;> simp [hm]
+  | eoiB =>
+    refine step_terminal (x := L0.step g inp 0 (fun _ _ => .oof) .eoiB s) ?_ (fun M rec => rfl)
+    simp only [L0.step]
+    by_cases hm : (s.pos == inp.size) = true <;> simp [hm]
+  | uprop nm =>
+    refine step_terminal (x := L0.step g inp 0 (fun _ _ => .oof) (.uprop nm) s) ?_ (fun M rec => rfl)
+    simp only [L0.step]
+    cases inp[s.pos]? with
+    | none => simp
+    | some ch => by_cases hm : g.uprop nm ch = true <;> simp [hm]
+  | skipUntil subs =>
+    exact step_terminal (x := .ok { s with pos := L1.skipUntilPos inp subs s.pos } []) (by simp)
+      (fun M rec => rfl)
+  | optChoice alts star =>
+    refine step_terminal (x := L0.step g inp 0 (fun _ _ => .oof) (.optChoice alts star) s) ?_ (fun M rec => rfl)
+    simp only [L0.step]
+    cases L1.optMatch g inp alts star s.pos with
+    | none => simp
+    | some q => simp
+
+end main
+
+/-! ### from the check to the theorem -/
+
+section final
+variable (g : Grammar) (inp : Input)
+
+theorem wfg_of_wellFormed (h : wellFormed g = true) :
+    WFG g (nullSet g) (triv g) (rankOf (rankTable g)) := by
+  simp only [wellFormed, Bool.and_eq_true] at h
+  obtain ⟨⟨⟨h1, h2⟩, h3⟩, h4⟩ := h
+  refine ⟨nClosed_of_check g _ h1, ?_, ?_, ?_, ?_⟩
+  · intro r hr
+    exact (List.all_eq_true.1 h2) r hr
+  · intro n r hn hl
+    simp only [triviaOk, List.all_cons, List.all_nil, Bool.and_true, Bool.and_eq_true] at h3
+    rcases hn with rfl | rfl
+    · have := h3.1; rw [hl] at this; simpa using this
+    · have := h3.2; rw [hl] at this; simpa using this
+  · intro r hr m hm
+    have := (List.all_eq_true.1 ((List.all_eq_true.1 h4) r hr)) m hm
+    simpa using this
+  · intro n r hn hl
+    simp only [triv, List.mem_filter, List.mem_cons, List.not_mem_nil, or_false]
+    exact ⟨hn, by rw [hl]; rfl⟩
+
+/-- **every expression of a well-formed grammar converges** from every state inside the input -/
+theorem run_terminates (h : wellFormed g = true) (e : Expr) (he : wfE g (nullSet g) e = true)
+    (s : S0) (hs : s.pos ≤ inp.size) : ∃ n, L0.run g inp n e s ≠ .oof :=
+  conv_all (wfg_of_wellFormed g h) (fun M => run_prog (wfg_of_wellFormed g h).ncl M)
+    (inp.size - s.pos) (listMax ((lc (nullSet g) (triv g) e).map (rankOf (rankTable g))) + 1) (esize e)
+    e s he hs (Nat.le_refl _) (rk_lt_listMax _) (Nat.le_refl _)
+
+/-- **parsing terminates**: for every start rule (an undefined one answers `stuck` at once) and
+    every start position inside the input -/
+theorem parse_terminates (h : wellFormed g = true) (start : String) (k : Nat) (hk : k ≤ inp.size) :
+    ∃ n, L0.run g inp n (.ident start none) ⟨k, [], false⟩ ≠ .oof := by
+  cases hl : g.lookup start with
+  | none =>
+    refine ⟨1, ?_⟩
+    show L0.step g inp 0 (L0.run g inp 0) (.ident start none) ⟨k, [], false⟩ ≠ .oof
+    simp [L0.step, L0.callRule, hl]
+  | some r =>
+    exact run_terminates g inp h (.ident start none) (by simp [wfE, hl]) ⟨k, [], false⟩ hk
+
+/-- … and stays terminated with more fuel, with the same answer -/
+theorem parse_terminates_stable (h : wellFormed g = true) (start : String) (k : Nat)
+    (hk : k ≤ inp.size) :
+    ∃ n x, x ≠ R0.oof ∧ ∀ fuel, n ≤ fuel → L0.parse g inp fuel start k = x := by
+  have hT : T g inp (.ident start none) ⟨k, [], false⟩ := parse_terminates g inp h start k hk
+  obtain ⟨n, x, hx, hst⟩ := hT.stable
+  dsimp only at hst
+  refine ⟨n, x, hx, fun fuel hf => ?_⟩
+  have : L0.parse g inp fuel start k = L0.run g inp (fuel + 1) (.ident start none) ⟨k, [], false⟩ := rfl
+  rw [this]
+  exact hst (fuel + 1) (by omega)
+
+end final
 
 end Term
 end Pest
